@@ -263,7 +263,7 @@ def h_timer(ctx, recurring, cancel_after, start='now', absolute=False):
   ctx.witness('done')
 
 
-def h_epoll(ctx, ncalls):
+def h_epoll(ctx, ncalls, hangup=False):
   """EpollSelect.select (the epoll-backed select hub) against the select() contract over a sequence of calls: a model epoll object (register /
   modify / unregister with their error behaviour, poll) stands for the kernel; per call the membership of a socket-like object in the read and
   write lists is solver-chosen (a second, raw fd stays in the read list like the hub's pinger) and either everything or nothing is ready."""
@@ -271,7 +271,7 @@ def h_epoll(ctx, ncalls):
   E = ctx.pox('pox.lib.epoll_select')
   IN, OUT = real_select.EPOLLIN, real_select.EPOLLOUT
   class FakeEpoll:
-    def __init__(self): self.reg = {}; self.ready = {}
+    def __init__(self): self.reg = {}; self.ready = {}; self.hup = set()
     def register(self, fd, mask):
       if fd in self.reg: raise FileExistsError(17, 'File exists')
       self.reg[fd] = mask
@@ -285,6 +285,7 @@ def h_epoll(ctx, ncalls):
       out = []
       for fd, mask in self.reg.items():
         ev = self.ready.get(fd, 0) & mask
+        if fd in self.hup: ev |= real_select.EPOLLHUP        # the kernel reports hang-up / error whatever the interest mask says
         if ev: out.append((fd, ev))
       return out
     def close(self): pass
@@ -305,6 +306,17 @@ def h_epoll(ctx, ncalls):
       allready = bool(ctx.bool('everything_ready_%d' % i))
       rl = ([o] if inr else []) + [raw]; wl = [o] if inw else []
       fake.ready = {7: (IN | OUT), 9: IN} if allready else {}
+      if hangup and i == ncalls - 1:
+        # the last call finds the object's peer gone (EPOLLHUP, with or without EPOLLIN): as with select(), nothing that was not in the
+        # exceptional list is reported there, and a member of the read list is reported readable (reading will not block: end of stream)
+        inx = bool(ctx.bool('obj_in_x_list')); fake.hup = {7}
+        fake.ready = {7: IN if bool(ctx.bool('hup_with_in')) else 0}
+        r, w, x = es.select(rl, wl, [o] if inx else [], 0)
+        ctx.check('hang-up: only members of the exceptional list are reported exceptional', all(e is o and inx for e in x))
+        if inr: ctx.check('hang-up: a member of the read list is reported readable', any(e is o for e in r))
+        ctx.check('hang-up: results are members of the lists they are reported in', all(e is o and inr for e in r) and all(e is o and inw for e in w))
+        ctx.witness('hangup')
+        continue
       r, w, x = es.select(rl, wl, [], 0)
       ctx.check('call %d: readable result == ready members of the read list' % i, sorted(map(repr, r)) == sorted(map(repr, rl if allready else [])))
       ctx.check('call %d: writable result == ready members of the write list' % i, list(w) == (wl if allready else []))
@@ -421,7 +433,7 @@ def obligations(tier):
     Obligation('O1_tasks', h_tasks, [dict(prog=p) for p in progs] + [dict(prog=p, lowprio=True) for p in low], witnesses=('done',), max_decisions=20000, mode='int',
                desc='execution trace of task programs under symbolic time / readiness'),
     Obligation('O2_timers', h_timer, timers, witnesses=('done',), max_decisions=20000, mode='int', desc='one-shot / recurring / cancelled / self-stopping timers'),
-    Obligation('O4_epoll', h_epoll, [dict(ncalls=3)] + ([dict(ncalls=4)] if thorough else []), witnesses=('done',), max_decisions=20000, mode='int',
+    Obligation('O4_epoll', h_epoll, [dict(ncalls=3), dict(ncalls=2, hangup=True)] + ([dict(ncalls=4), dict(ncalls=3, hangup=True)] if thorough else []), witnesses=('done', 'hangup'), max_decisions=20000, mode='int',
                desc='EpollSelect.select over a model epoll object: result lists and kernel interest set follow the read/write lists across calls'),
     Obligation('O3_subtasks', h_subtasks, sub, witnesses=('done', 'raised'), max_decisions=20000, mode='int',
                desc='task_function / Again: nested sub-task calls behave like calls - result or exception reaches exactly the caller'),
